@@ -38,6 +38,11 @@ reference with exactly the affected parts pruned):
   C06-table-in-inline (DESIGN.md F13)   a Table / ArrayOfTables stored under an inline table is dropped by the printer
   C08-empty-container-vanishes          an implicit or dotted table left without anything printable below it, or an
                                         array of tables left without elements, has no TOML spelling and disappears
+  C08-unpositioned-element-misplaced    an array-of-tables element created through the API has no `doc_position`; the printer gives
+                                        it the position of its predecessor in tree order, so after `sort_values` has reordered the
+                                        sub-tables of the previous element its `[[header]]` is printed BEFORE some of them and they
+                                        re-attach to the new element (content changes).  Confirmed by comparing up to which element
+                                        of that array the sub-tables hang from.
   C08-key-decor-in-header               a value entry whose key carries a comment / newline in its decor is turned into a
                                         table (Item::into_table / into_array_of_tables stored back, `doc[k] = table()`):
                                         the header is printed as `[<comment>\nkey]`, which is not valid TOML
@@ -56,6 +61,11 @@ THEOREMS = [
     "C08_step_content: forall t o t', apply o t = Some t' -> abs t' = spec_apply o (abs t)  (all 16 operation kinds)",
     "C08_history_content / C08_history_content_all: the same folded over any operation list (inapplicable operations skipped)",
     "C08_order_abs / _insert / _remove / _sort / _array_insert: abs keeps storage order; where spec_apply puts new entries and that survivors keep their relative order",
+    "C08_verbatim: apply o t = Some t' -> untouched o p = true -> entry_repr t p = Some e -> snd e <> INone -> entry_repr t' (reloc o p) = Some e  (key repr + decor, value repr + decor, container decor of every untouched entry are identical; all 16 operation kinds)",
+    "C08_history_verbatim: the same along any applicable operation list",
+    "C08_step_wf / C08_history_wf: no operation leaves an Item::None placeholder (no_none (abs t) is preserved)",
+    "C08_text_valid_refuted / C08_text_content_refuted_table_in_inline / _empty_container / _unpositioned_element: the text-level half is false of the model on the four known classes (witnesses replayed on the implementation)",
+    "NOT proved (checked by the oracle on the implementation): identical reprs -> identical printed fragments; printed text is valid TOML and re-parses to abs t' (C06 round trip)",
 ]
 RULE = ("gen_toml documents (random layout, comments and whitespace in every decor slot) x random operation lists "
         "(length <= 12 quick) on existing / missing / wrongly typed paths over the document's own keys plus fresh keys; "
@@ -566,6 +576,47 @@ def header_with_key_decor(n, parent_std=True):
     return False
 
 
+def is_tablelike(n):
+    return n.kind == "A" or n.is_std()
+
+
+def flagged_aots(p, path="r", out=None):
+    """arrays of tables holding an element the API created (`doc_position` None)"""
+    out = set() if out is None else out
+    if p.kind == "A":
+        if any(e.orig is None for e in p.elems):
+            out.add(path)
+        for i, e in enumerate(p.elems):
+            flagged_aots(e, "%s/i%d" % (path, i), out)
+    elif p.kind == "t":
+        for k, c in p.items:
+            flagged_aots(c, path + "/" + seg_key(k), out)
+    elif p.kind == "a":
+        for i, e in enumerate(p.elems):
+            flagged_aots(e, "%s/i%d" % (path, i), out)
+    return out
+
+
+def canon(n, flagged, path="r"):
+    """content up to the order of standard-table entries; below a flagged array of tables also up to
+    WHICH element a sub-table / sub-array-of-tables hangs from"""
+    if n.kind == "v":
+        return ("v", n.val)
+    if n.kind == "a":
+        return ("a", tuple(canon(e, flagged, "%s/i%d" % (path, i)) for i, e in enumerate(n.elems)))
+    if n.kind == "t":
+        ents = [(k, canon(c, flagged, path + "/" + seg_key(k))) for k, c in n.items]
+        return ("t", n.inl, tuple(ents) if n.inl else tuple(sorted(ents, key=repr)))
+    if path in flagged:
+        own, moved = [], []
+        for i, e in enumerate(n.elems):
+            ep = "%s/i%d" % (path, i)
+            own.append(tuple(sorted(((k, canon(c, flagged, ep + "/" + seg_key(k))) for k, c in e.items if not is_tablelike(c)), key=repr)))
+            moved += [(k, canon(c, flagged, path + "/*")) for k, c in e.items if is_tablelike(c)]
+        return ("A*", tuple(own), tuple(sorted(moved, key=repr)))
+    return ("A", tuple(canon(e, flagged, "%s/i%d" % (path, i)) for i, e in enumerate(n.elems)))
+
+
 def lines(t, prefix=()):
     """the key paths of the key/value lines of a table, in printing order"""
     out = []
@@ -725,14 +776,35 @@ def _analyse(case, il):
                         shown = pr
                         d = None
                         break
+        skip_verbatim = False
+        if d:
+            # sub-tables re-attached to another element of an array of tables with an unpositioned element?
+            fl = flagged_aots(ref.root)
+            if fl:
+                for a, b in ((False, False), (True, False), (False, True), (True, True)):
+                    pr, used = prune(ref.root, a, b)
+                    if canon(pr, fl) == canon(got, fl):
+                        known |= used | {"C08-unpositioned-element-misplaced"}
+                        d = None
+                        skip_verbatim = True
+                        break
         if d:
             return ("%s: %s" % (what, d), None, applied)
+        if skip_verbatim:
+            continue
         v = verbatim(shown, "r", frags0, frags)
         if v:
             return ("%s: %s" % (what, v), None, applied)
     if known:
         k = sorted(known)[0]
-        return ("entries built through the API are missing from the printed text (%s)" % ", ".join(sorted(known)), k, applied)
+        what = []
+        if "C08-key-decor-in-header" in known:
+            what.append("the printed text is not valid TOML: a key's comment / newline decor is printed inside a [header]")
+        if "C08-unpositioned-element-misplaced" in known:
+            what.append("sub-tables are printed under another element of their array of tables")
+        if known - {"C08-key-decor-in-header", "C08-unpositioned-element-misplaced"}:
+            what.append("entries of the edited tree are missing from the printed text")
+        return ("%s (%s)" % ("; ".join(what), ", ".join(sorted(known))), k, applied)
     return (None, None, applied)
 
 
@@ -940,6 +1012,12 @@ WITNESSES = [
     (b"a.b = 1\n[x.y]\nk = 1\n", "rm,r/k61,k62;rm,r/k78/k79,k6b;rm,r/k78,k79"),
     (b"[[a]]\nx = 1\n", "trm,r/k61,0"),
     (b"a = [ { x = 1 } , { y = 2 } ] # c\n[t]\nu.v = 1\n", "intoaot,r,k61;mkval,r,k74;intotab,r,k74;mkval,r,k61"),
+    # C08-key-decor-in-header: the comment above the entry ends up inside the header brackets
+    (b"# c\nc = { x = 1 }\n", "intotab,r,k63"),
+    (b"# c\nc = { x = 1 }\n", "iset,r/k63,N"),
+    (b"# c\nc = [ { x = 1 } ]\n", "intoaot,r,k63"),
+    # C08-unpositioned-element-misplaced: [c.a] ends up under the second [[c]]
+    (b"[[c]]\n[[c.b]]\n[c.a]\nx = 1\n", "tpush,r/k63;sort,r/k63/i0"),
 ]
 
 
